@@ -202,6 +202,8 @@ func engineFor(prop string, t *testing.T) Engine {
 	switch prop {
 	case "C01", "C02", "C16":
 		return seqEngine{}
+	case "C03", "C04", "C06", "C09":
+		return crashEngine{}
 	}
 	return extraEngineFor(prop, t)
 }
